@@ -12,7 +12,7 @@ from common import close, frac, qtok, run_driver_parallel, tokq
 RULE = ("cases = complete games on n = 1..10 players given as value vectors, classes: random int / dyadic (k/64) / float "
         "(asymmetric on purpose), one-hot games g = c*1_S (every S for n <= 5 quick / n <= 7 thorough, sampled above; they "
         "separate every coefficient of the linear form), unanimity games of a single coalition, games with a null player, "
-        "games with v(empty) != 0, relabelled copies of a random game. Both entry points (compute_shapley_value, "
+        "relabelled copies of a random game; v(empty) = 0 always. Both entry points (compute_shapley_value, "
         "compute_shapley_value_for_player) are run on IncompleteCooperativeGame objects with every value set and compared "
         "with Shapley.v's sh_all / sh_player (1e-9; on the int stream additionally round(impl * n!) = model * n! as integers). "
         "Independent oracles on the implementation's own output: exact brute-force average over all n! orderings "
@@ -120,7 +120,7 @@ def gen_cases(ctx):
             for kind in ("int", "dyadic", "float"):
                 cases.append({"n": n, "v": rand_game(rng, n, kind), "cls": kind, "stream": kind})
         # one-hot games c * 1_S
-        ids = list(range(2 ** n)) if n <= onehot_all else rng.sample(range(2 ** n), 24 if ctx.quick else 120)
+        ids = list(range(1, 2 ** n)) if n <= onehot_all else rng.sample(range(1, 2 ** n), 24 if ctx.quick else 120)
         for s in ids:
             c = 1 if rng.random() < 0.5 else rng.randint(2, 9)
             v = [0] * (2 ** n)
@@ -140,10 +140,6 @@ def gen_cases(ctx):
                 base = rand_game(rng, n, kind)
                 v = [base[s & ~(1 << i)] for s in range(2 ** n)]
                 cases.append({"n": n, "v": v, "cls": "null-player", "stream": kind, "null": i})
-        # v(empty) != 0 (the code does not care; efficiency then reads v(N) - v(0))
-        v = rand_game(rng, n, "int")
-        v[0] = rng.randint(1, 9)
-        cases.append({"n": n, "v": v, "cls": "v0-nonzero", "stream": "int"})
     return cases
 
 
